@@ -53,8 +53,11 @@ def make_param(ex, st, t, name, root=None):
             kf = z3.Function(fresh_name(name + '_kind'), z3.IntSort(), z3.IntSort())
             af = z3.Function(fresh_name(name + '_a'), z3.IntSort(), z3.RealSort())
             bf = z3.Function(fresh_name(name + '_b'), z3.IntSort(), z3.RealSort())
-            ref = st.alloc(SDict(dom, lambda k: IvVal(kf(Z(k)), af(Z(k)), bf(Z(k))), TOpaque('ivval')), 'param')
+            D = SDict(dom, lambda k: IvVal(kf(Z(k)), af(Z(k)), bf(Z(k))), TOpaque('ivval'))
+            ref = st.alloc(D, 'param')
             ex.frame_roots[ref.oid] = name
+            if getattr(ex, 'want_dict_order', False):
+                ex.np.dict_keys_list(D, st)       # the parameter's iteration order exists from the start (facts on the entry state)
             return ref
         return ('opaque', name)
     if isinstance(t, TTuple):
